@@ -322,8 +322,16 @@ def run(chk, tier, seed, replay):
         out = []
         for fs, std in pconfigs[i::psh]:
             feats_ = tuple(sorted(fs)) + (("std",) if std else ())
-            obs, failed, br = vlib.run_case_crate(f"c20_probe_{i}", groups[fs], prelude=PROBE_PRELUDE, features=feats_,
-                                                  default_features=False, target_dir=os.path.join(vlib.BUILD, f"target-c20p-{i}"))
+            try:
+                obs, failed, br = vlib.run_case_crate(f"c20_probe_{i}", groups[fs], prelude=PROBE_PRELUDE, features=feats_,
+                                                      default_features=False, target_dir=os.path.join(vlib.BUILD, f"target-c20p-{i}"))
+            except vlib.ToolError as e:
+                # the probe cannot even start because derive_more / derive_more-impl do not compile with these features:
+                # that is the property's subject, not a tool problem
+                if "could not compile `derive_more" in str(e):
+                    out.append((fs, std, None, str(e)[-1200:]))
+                    continue
+                raise
             out.append((fs, std, obs, failed))
         return out
     # the reference: the same modules under `full`
@@ -334,6 +342,13 @@ def run(chk, tier, seed, replay):
         presults = [x for part in ex.map(probe_work, range(psh)) for x in part]
         ref_obs, ref_failed, _ = ref_f.result() if ref_f else ({}, {}, None)
     for fs, std, obs, failed in presults:
+        if obs is None:
+            chk.cov["evaluations"] += 1
+            chk.deviation(f"probe:{'+'.join(sorted(fs))}:{'std' if std else 'no_std'}:<crates>",
+                          f"derive_more does not build with features {sorted(fs)} {'+ std' if std else '(no std)'}",
+                          case={"features": sorted(fs), "std": std, "step": "probe"}, expected="both crates build",
+                          observed=failed, tags={"kind": "build", "features": sorted(fs)})
+            continue
         for key, _ in groups[fs]:
             chk.cov["evaluations"] += 1
             chk.cov["distinct_nontrivial"] += 1
